@@ -605,6 +605,23 @@ def rule_R16(text, applied):
     return t
 
 
+def rule_R6(text, applied):
+    """receiver `mut self` -> `self` plus `let mut self_ = self;` as first statement; `self` -> `self_` in the body."""
+    m_text = mask(text)
+    fn_kw = re.search(r"\bfn\b", m_text).start()
+    m = re.search(r"\(\s*mut\s+self\b", m_text[fn_kw:])
+    if not m:
+        raise ExtractError("R6: no `mut self` receiver (lost anchor)")
+    a = fn_kw + m.start()
+    ob = next_body_brace(m_text, fn_kw)
+    head = text[:a] + "(self" + text[fn_kw + m.end():ob + 1]
+    body = text[ob + 1:]
+    body2, n = _sub_masked(body, r"(?<![\w\.])self\b", lambda mm, s_: "self_")
+    text = head + " let mut self_ = self;" + body2
+    applied.append(f"R6x{n}")
+    return text
+
+
 def rule_R7stack(text, applied):
     """`for D in E.stack() {` (DecisionTracker::stack() = `self.stack.iter().copied()`) -> the R7ref form over the
     field: `for &D in &E.stack {` (then rewritten by R7ref)."""
@@ -1108,7 +1125,7 @@ RULES = {
     "R1": rule_R1, "R2": rule_R2, "R2ref": rule_R2ref, "R3": rule_R3, "R4": rule_R4, "R5": rule_R5,
     "R8max": rule_R8max, "R8cmpmax": rule_R8cmpmax, "R8resize_none": rule_R8resize_none, "R9": rule_R9, "R8position": rule_R8position, "R8rotate": rule_R8rotate, "R12refcell": rule_R12refcell,
     "R8slice": rule_R8slice, "R7iter": rule_R7iter, "R8bitget": rule_R8bitget, "R8intonext": rule_R8intonext, "R8rposition": rule_R8rposition, "R8contains": rule_R8contains, "R12cell": rule_R12cell, "R8resize_veccap": rule_R8resize_veccap, "R8collectid": rule_R8collectid, "R8index": rule_R8index, "subst": rule_subst,
-    "R7ref": rule_R7ref, "R16": rule_R16, "R14q": rule_R14q, "R7stack": rule_R7stack, "R18": rule_R18, "R8frozenindex": rule_R8frozenindex, "R7range": rule_R7range, "R14err": rule_R14err, "R7array": rule_R7array, "R17": rule_R17,
+    "R7ref": rule_R7ref, "R6": rule_R6, "R16": rule_R16, "R14q": rule_R14q, "R7stack": rule_R7stack, "R18": rule_R18, "R8frozenindex": rule_R8frozenindex, "R7range": rule_R7range, "R14err": rule_R14err, "R7array": rule_R7array, "R17": rule_R17,
     "R13": rule_R13, "R14": rule_R14, "R2set": rule_R2set, "R8first": rule_R8first, "R7": rule_R7, "R10": rule_R10, "R11": rule_R11,
 }
 ALWAYS = [rule_vis, rule_tracing, rule_const]
